@@ -73,9 +73,12 @@ func (d *EMADynamicSampler) GetSampleRate(trace *types.Trace) (rate uint, keep b
 		d.Logger.Debug().Logf("trace key hit max length of %d, truncating", maxKeyLength)
 	}
 	count := int(trace.DescendantCount())
-	rate = uint(d.dynsampler.GetSampleRateMulti(key, count))
-	if rate < 1 { // protect against dynsampler being broken even though it shouldn't be
+	// compare before converting: a negative rate (a negative goal/initial rate passes
+	// validation) would become a huge uint and then a negative argument to rand.Intn
+	if r := d.dynsampler.GetSampleRateMulti(key, count); r < 1 {
 		rate = 1
+	} else {
+		rate = uint(r)
 	}
 	shouldKeep := rand.Intn(int(rate)) == 0
 	d.Logger.Debug().WithFields(map[string]interface{}{
